@@ -32,6 +32,7 @@ pub mod hs {
     pub open spec fn is_missing(fs: FileState, f: FileId) -> bool { fget(fs, f) == Some(MTime::Missing) }
     /// the files a step's signature covers
     pub open spec fn covered(b: Build, f: FileId) -> bool { gs::dirtying_ins(b).contains(f) || b.discovered_ins@.contains(f) || b.outs.ids@.contains(f) }
+    pub open spec fn phony(b: Build) -> bool { b.cmdline is None }
     pub open spec fn stamp_of(fs: FileState, f: FileId) -> std::time::SystemTime { match fget(fs, f) { Some(MTime::Stamp(t)) => t, _ => arbitrary() } }
     /// name and mtime of each listed file, in order
     pub open spec fn files_fed(files: GraphFiles, fs: FileState, s: Seq<FileId>) -> Seq<Fed>
